@@ -137,12 +137,13 @@ class MapObj:
 
 class SymMap:
     """map[string]string with symbolic content: has: Array(String,Bool), val: Array(String,String)"""
-    __slots__ = ('has', 'val', 'nil')
+    __slots__ = ('has', 'val', 'nil', 'size')
 
     def __init__(self, has, val, nil=False):
         self.has = has
         self.val = val
         self.nil = nil
+        self.size = None
 
 
 class Iface:
@@ -915,6 +916,13 @@ class Exec:
             return a.len
         if a is None:
             return 0
+        if isinstance(a, SymMap):
+            if getattr(a, 'size', None) is None:
+                a.size = self.fresh('maplen')
+                self.assume(a.size >= 0)
+                if a.nil is not False:
+                    self.assume(Implies(a.nil, a.size == 0))
+            return a.size
         if isinstance(a, Array):
             return len(a.f)
         if isinstance(a, Chan):
@@ -1768,7 +1776,18 @@ class Explorer:
         raise Unsupported('channel send on %r' % (ch,))
 
     def select(self, ex, states, blocking, t):
-        raise Unsupported('select')
+        """default: a blocked select is released by its first timer (time.After) case"""
+        zero = tuple([ex.zero(x) for x in ex.prog.types[t]['elems'][2:]])
+        for idx, (d, c, snd) in enumerate(states):
+            if isinstance(c, Chan) and c.closed and d == 2:
+                return (idx, False) + zero
+        for idx, (d, c, snd) in enumerate(states):
+            if isinstance(c, Chan) and getattr(c, 'name', None) == 'timer' and d == 2:
+                ex.events.append(('timer-fired', c))
+                return (idx, True) + zero
+        if not blocking:
+            return (-1, False) + zero
+        raise Unsupported('select with no timer case')
 
     def run(self, harness, on_path=None, stop_after=None, want_open=None, initial=None):
         """harness(ex) -> any; on_path(ex, kind, result_or_exc)"""
